@@ -299,9 +299,11 @@ Lemma lazy_nonvacuous :
   exists r, lazy_range 0 (HRow 3) cells = Ok r /\ r_start r = (3, 0) /\ r_end r = (5, 2).
 Proof.
   cbv zeta. split; [vm_compute; intuition discriminate|]. split.
-  { cbn [pre]. split; [vm_compute; intuition discriminate|].
+  { assert (HL : lazy_cells 0 (HRow 3) [((1, 1), 5); ((4, 2), 6); ((5, 0), 7)]
+                 = [((3, 2), 0); ((4, 2), 6); ((5, 0), 7)]) by (vm_compute; reflexivity).
+    rewrite HL. cbn [pre]. split; [vm_compute; intuition discriminate|].
     split; [|vm_compute; intuition discriminate].
-    vm_compute. intros c [<-|[<-|[<-|[]]]]; cbn [fst snd]; intuition discriminate. }
+    intros c [<-|[<-|[<-|[]]]]; vm_compute; intuition discriminate. }
   split.
   { cbn [pre]. split; [vm_compute; intuition discriminate|].
     split; [|vm_compute; intuition discriminate].
